@@ -15,7 +15,7 @@ theorem irregular_spelled (c : Cfg) (p w repl : Str) (hw : w ‚â† []) (hword : ‚à
       obtain ‚ü®x, xs, rfl‚ü© := List.exists_cons_of_ne_nil hw
       simp [boundary, hword x (by simp)]) hm
     simpa using this
-  simp [irregular, h2, hl, List.append_assoc]
+  simp [irregular, irregular2, h2, hl, List.append_assoc]
 
 /-- same first rune ‚áí keeping the written first rune and appending the replacement's tail is the
     replacement itself (the table facts `plural_heads` / `singular_heads` provide the premise for
